@@ -12,12 +12,20 @@ Over M-Core's `Sess` methods (node.go:113-161, 163-211, 401-446), for every sess
    PDR goes (`attached_by_update_then_removed`, the history that failed before the fix);
  * once per URR: after the final report of a removed URR is emitted the entry is gone (C11 `emit_known`), and a
    count that reached 0 cannot trigger again (`detach_at_zero_silent`).
-Partial (`…_partial` reading, stated here): the reference count equals the number of PDRs naming the URR only for
-histories in which a URR exists when a PDR first names it and rule ids are not re-created while live — Create PDR /
-Create URR with a live id overwrite the bookkeeping in the code (node.go:126, 347), which the model mirrors.
+ * `count_is_refs` (the history theorem): after ANY history of Create / Update / Remove / Query URR and Create / Update /
+   Remove PDR on a session — arbitrary URR lists (repeated ids included), URRs created before or after the PDRs naming
+   them, any driver answers (faults anywhere), any map-iteration order — in which no Create PDR re-uses the id of a live
+   PDR, the recorded count of every URR the session knows equals the number of PDRs whose current list names it;
+ * `remove_pdr_final_once`, `update_pdr_final_once`: hence a Remove PDR / Update PDR the data plane accepts queries
+   exactly the URRs that lose their last referring PDR in that request — each once, none else — whatever the order;
+ * `recreate_live_pdr_breaks` (negation, by evaluation): Create PDR for a LIVE PDR id overwrites the PDR's URR set
+   without releasing the references of the old set — the count no longer equals the number of referring PDRs and the
+   final report of the dropped URR is never produced.  This is the hypothesis `count_is_refs` needs; it is a property
+   of the code (node.go:126), recorded as known finding `recreatePdrLive`.
 -/
 import UpfVerif.Model.Core
 import UpfVerif.Lemmas.Core
+import UpfVerif.Lemmas.CoreRef
 
 namespace UpfVerif.C12
 open UpfVerif.Core
@@ -105,5 +113,137 @@ example :
     let (s4, c4, r4) := s3.removePDR { id := some 1 } { c3 with pending := [ok] }
     let (_, _, r5) := s4.removePDR { id := some 2 } { c4 with pending := [ok, (default, { ok := true, reports := [rep] })] }
     r4 = [] ∧ r5.map (fun r => (r.urr, hasTERMR r)) = [(1, true)] := by decide
+
+/-! ### the whole history -/
+
+/-- the rule operations of a session's lifetime that touch PDR / URR bookkeeping -/
+inductive SOp
+  | createURR (ie : RuleIE) | updateURR (ie : RuleIE) | removeURR (ie : RuleIE) | queryURR (ie : RuleIE)
+  | createPDR (ie : RuleIE) | updatePDR (ie : RuleIE) | removePDR (ie : RuleIE)
+
+def SOp.apply (s : Sess) (c : Ctx) : SOp → Sess × Ctx
+  | .createURR ie => s.createURR ie c
+  | .updateURR ie => ((s.updateURR ie c).1, (s.updateURR ie c).2.1)
+  | .removeURR ie => ((s.removeURR ie c).1, (s.removeURR ie c).2.1)
+  | .queryURR ie => ((s.queryURR ie c).1, (s.queryURR ie c).2.1)
+  | .createPDR ie => s.createPDR ie c
+  | .updatePDR ie => ((s.updatePDR ie c).1, (s.updatePDR ie c).2.1)
+  | .removePDR ie => ((s.removePDR ie c).1, (s.removePDR ie c).2.1)
+
+def run (s : Sess) (c : Ctx) : List SOp → Sess × Ctx
+  | [] => (s, c)
+  | op :: ops => run (op.apply s c).1 (op.apply s c).2 ops
+
+/-- the one restriction: a Create PDR does not name a PDR that is live at that point -/
+def Fresh (s : Sess) : SOp → Prop
+  | .createPDR ie => alGet s.pdrs (ie.id.getD 0) = none
+  | _ => True
+
+def FreshRun (s : Sess) (c : Ctx) : List SOp → Prop
+  | [] => True
+  | op :: ops => Fresh s op ∧ FreshRun (op.apply s c).1 (op.apply s c).2 ops
+
+instance (s : Sess) (op : SOp) : Decidable (Fresh s op) := by
+  cases op <;> unfold Fresh <;> infer_instance
+
+def decFreshRun : (ops : List SOp) → (s : Sess) → (c : Ctx) → Decidable (FreshRun s c ops)
+  | [], _, _ => isTrue trivial
+  | op :: ops, s, c =>
+    match (inferInstance : Decidable (Fresh s op)), decFreshRun ops (op.apply s c).1 (op.apply s c).2 with
+    | isTrue h1, isTrue h2 => isTrue ⟨h1, h2⟩
+    | isFalse h1, _ => isFalse fun h => h1 h.1
+    | _, isFalse h2 => isFalse fun h => h2 h.2
+
+instance (s : Sess) (c : Ctx) (ops : List SOp) : Decidable (FreshRun s c ops) := decFreshRun ops s c
+
+theorem apply_ref (s : Sess) (c : Ctx) (op : SOp) (h : RefInv s) (hf : Fresh s op) : RefInv (op.apply s c).1 := by
+  cases op with
+  | createURR ie => exact createURR_ref s ie c h
+  | updateURR ie => exact updateURR_ref s ie c h
+  | removeURR ie => exact removeURR_ref s ie c h
+  | queryURR ie => exact queryURR_ref s ie c h
+  | createPDR ie => exact createPDR_ref s ie c h hf
+  | updatePDR ie => exact updatePDR_ref s ie c h
+  | removePDR ie => exact removePDR_ref s ie c h
+
+theorem refInv_new (rnode : Nat) (l r : Seid) : RefInv { rnode := rnode, localID := l, remoteID := r } :=
+  ⟨by simp, by simp, by intro u n h; simp [refOf, alGet] at h⟩
+
+/-- **C12, the bookkeeping half, for every history**: the recorded count of every known URR is the number of PDRs whose
+    current URR list names it -/
+theorem count_is_refs (ops : List SOp) : ∀ (s : Sess) (c : Ctx), RefInv s → FreshRun s c ops → RefInv (run s c ops).1 := by
+  induction ops with
+  | nil => intro s c h _; exact h
+  | cons op ops ih =>
+    intro s c h hf
+    exact ih _ _ (apply_ref s c op h hf.1) hf.2
+
+/-- **the last PDR referring to a URR is removed**: after any such history, a Remove PDR the data plane accepts queries
+    URR `v` once if the session knows `v`, the PDR named it and no other PDR does — and not at all otherwise -/
+theorem remove_pdr_final_once (ops : List SOp) (rnode : Nat) (l r : Seid) (c0 : Ctx)
+    (hf : FreshRun { rnode := rnode, localID := l, remoteID := r } c0 ops)
+    (ie : RuleIE) (pdrid : Nat) (us : List Nat) (hid : ie.id = some pdrid) :
+    let s := (run { rnode := rnode, localID := l, remoteID := r } c0 ops).1
+    let c := (run { rnode := rnode, localID := l, remoteID := r } c0 ops).2
+    alGet s.pdrs pdrid = some us →
+    (c.call { seid := s.localID, op := .remove, kind := .pdr, id := pdrid }).2.ok = true →
+    ∀ v, qcount (s.removePDR ie c).2.1 s.localID v =
+      qcount c s.localID v + (if v ∈ us ∧ (alGet s.urrs v).isSome = true ∧ refs s.pdrs v = 1 then 1 else 0) := by
+  intro s c hg hok v
+  have hinv : RefInv s := count_is_refs ops _ c0 (refInv_new rnode l r) hf
+  rw [removePDR_queries s ie c hinv pdrid us hid hg hok v]
+  congr 1
+  have := refOf_one_iff s hinv v
+  by_cases h1 : refOf s.urrs v = some 1
+  · have h2 := this.mp h1; simp [h1, h2]
+  · have h2 : ¬ ((alGet s.urrs v).isSome = true ∧ refs s.pdrs v = 1) := fun h => h1 (this.mpr h)
+    simp [h1, h2]
+
+/-- **the last PDR referring to a URR is re-pointed elsewhere**: the same for Update PDR -/
+theorem update_pdr_final_once (ops : List SOp) (rnode : Nat) (l r : Seid) (c0 : Ctx)
+    (hf : FreshRun { rnode := rnode, localID := l, remoteID := r } c0 ops) (ie : RuleIE) (old : List Nat) :
+    let s := (run { rnode := rnode, localID := l, remoteID := r } c0 ops).1
+    let c := (run { rnode := rnode, localID := l, remoteID := r } c0 ops).2
+    alGet s.pdrs (ie.id.getD 0) = some old →
+    (c.call { seid := s.localID, op := .update, kind := .pdr, id := ie.id.getD 0 }).2.ok = true →
+    ∀ v, qcount (s.updatePDR ie c).2.1 s.localID v =
+      qcount c s.localID v +
+        (if (v ∈ old ∧ v ∉ ie.urrs) ∧ (alGet s.urrs v).isSome = true ∧ refs s.pdrs v = 1 then 1 else 0) := by
+  intro s c hg hok v
+  have hinv : RefInv s := count_is_refs ops _ c0 (refInv_new rnode l r) hf
+  rw [updatePDR_queries s ie c hinv old hg hok v]
+  congr 1
+  have := refOf_one_iff s hinv v
+  have hm : v ∈ ie.urrs.eraseDups ↔ v ∈ ie.urrs := List.mem_eraseDups
+  by_cases h1 : refOf s.urrs v = some 1
+  · have h2 := this.mp h1; simp [h1, h2, hm]
+  · have h2 : ¬ ((alGet s.urrs v).isSome = true ∧ refs s.pdrs v = 1) := fun h => h1 (this.mpr h)
+    simp [h1, h2]
+
+/-- non-vacuity: a history with a URR created AFTER the PDR that names it, a repeated URR id, a shared URR and an
+    Update PDR satisfies `FreshRun`, and ends in a state where the counts are (2, 1) -/
+example :
+    let ok : DpCall × DpAns := (default, { ok := true })
+    let c0 : Ctx := { pending := List.replicate 8 ok }
+    let ops := [SOp.createPDR { id := some 1, urrs := [7, 7] }, .createURR { id := some 7 }, .createURR { id := some 8 },
+                .createPDR { id := some 2, urrs := [8] }, .updatePDR { id := some 2, urrs := [7, 8] }]
+    let s := (run { rnode := 0, localID := 5, remoteID := 9 } c0 ops).1
+    FreshRun { rnode := 0, localID := 5, remoteID := 9 } c0 ops ∧
+    refOf s.urrs 7 = some 2 ∧ refOf s.urrs 8 = some 1 ∧ refs s.pdrs 7 = 2 ∧ refs s.pdrs 8 = 1 := by
+  decide
+
+/-- **the hypothesis is needed, and the code does not meet the property without it** (known finding `recreatePdrLive`):
+    URR 7, PDR 1 naming it, then Create PDR 1 again with an empty list.  No PDR names URR 7 any more, the recorded count
+    is still 1, and no final report was or will be produced: removing PDR 1 queries nothing. -/
+theorem recreate_live_pdr_breaks :
+    let ok : DpCall × DpAns := (default, { ok := true })
+    let c0 : Ctx := { pending := List.replicate 8 ok }
+    let ops := [SOp.createURR { id := some 7 }, .createPDR { id := some 1, urrs := [7] }, .createPDR { id := some 1 }]
+    let s := (run { rnode := 0, localID := 5, remoteID := 9 } c0 ops).1
+    let c := (run { rnode := 0, localID := 5, remoteID := 9 } c0 ops).2
+    ¬ FreshRun { rnode := 0, localID := 5, remoteID := 9 } c0 ops ∧
+    refs s.pdrs 7 = 0 ∧ refOf s.urrs 7 = some 1 ∧ qcount c 5 7 = 0 ∧
+    qcount (s.removePDR { id := some 1 } c).2.1 5 7 = 0 := by
+  decide
 
 end UpfVerif.C12
